@@ -1,7 +1,7 @@
 ---------------------------- MODULE TransportCases ----------------------------
 (* M5 for C15 / C16: transcripts of the same channel programs on different transports / bootstrap paths.
    case "transcript": [base (transcript on plain popen, thread), other, transport, execmodel, isolated (BOOLEAN), err]
-   case "control":    [alive_before, gone_after_kill_ms, wait_returned, isolated, err]
+   case "control":    [alive_before, gone_after_kill_ms, wait_returned, gone_after_wait_then_kill_ms, pending_wait_returned, isolated, err]
    A transcript is a sequence of entries (sequences of strings / ints / booleans / sequences), compared by equality:
    "observationally equivalent" means the transcripts are identical.
 *)
@@ -22,6 +22,8 @@ CVerdict(c) ==
   ELSE IF ~c.alive_before THEN "HARNESS.sub-not-alive"
   ELSE IF c.gone_after_kill_ms = -1 THEN Pfx(c) \o "kill-request-did-not-reach-the-proxied-process"
   ELSE IF ~c.wait_returned THEN Pfx(c) \o "wait-request-did-not-return-the-exit-status"
+  ELSE IF c.gone_after_wait_then_kill_ms = -1 THEN Pfx(c) \o "kill-request-behind-a-pending-wait-request-did-not-reach-the-proxied-process"
+  ELSE IF ~c.pending_wait_returned THEN Pfx(c) \o "pending-wait-request-not-answered-after-the-kill"
   ELSE "ok"
 Verdict(c) == IF c.k = "transcript" THEN TVerdict(c) ELSE CVerdict(c)
 ASSUME PrintT(<<"verdicts", [i \in 1..Len(Cases) |-> Verdict(Cases[i])]>>)
